@@ -148,6 +148,11 @@ func convertInterface(v reflect.Value, t reflect.Type) (reflect.Value, bool) {
 	}
 	if v.CanInterface() {
 		i := v.Interface()
+		if i == nil {
+			// A nil interface value, eg the result of find-feature
+			// for a missing feature, implements nothing.
+			return v, false
+		}
 		if tt := reflect.TypeOf(i); tt.Implements(t) {
 			return reflect.ValueOf(i).Convert(t), true
 		}
